@@ -86,5 +86,37 @@ def parse (h : Bytes) : Fields :=
 
 def validRateQ (q : Nat) : Bool := q == 1 || q == 2 || q == 4 || q == 8 || q == 16 || q == 32 || q == 64 || q == 128
 
+/-! ### the header-word table (bytes 980 … 2047 of the first header block)
+
+Writer: `HeaderwordInfo.to_buffer` (12 bytes per row: field code, constant, code of the field whose array holds the values;
+`signed_int_to_bytes`, little-endian) stored at 980 by `make_header` and patched there by the `thorough` converter.
+Reader: `HeaderwordInfo(buffer = headerbytes[980:2048])`. -/
+
+/-- one row: (field code, constant value, code of the field whose footer array holds the values) -/
+abbrev TRow := Int × Int × Int
+
+def tableAt : Nat := 980
+def tableRows : Nat := 89
+def rowAt (i : Nat) : Nat := tableAt + 12 * i
+
+/-- the `k`-th 4-byte cell of the table, rows laid out one after the other -/
+def cell (rows : List TRow) (k : Nat) : Int :=
+  let r := rows.getD (k / 3) (0, 0, 0)
+  if k % 3 = 0 then r.1 else if k % 3 = 1 then r.2.1 else r.2.2
+
+/-- the 4-byte stores of `to_buffer`, at their place in the header block -/
+def tableWrites (rows : List TRow) : List (Nat × Nat) :=
+  (List.range (3 * rows.length)).map fun k => (tableAt + 4 * k, word (cell rows k))
+
+def putTable (h : Bytes) (rows : List TRow) : Bytes := (tableWrites rows).foldl (fun h ow => put32 h ow.1 ow.2) h
+
+/-- the reader's view of row `i` -/
+def getRow (h : Bytes) (i : Nat) : TRow :=
+  (toSigned (get32 h (rowAt i)), toSigned (get32 h (rowAt i + 4)), toSigned (get32 h (rowAt i + 8)))
+
+def getTable (h : Bytes) (n : Nat) : List TRow := (List.range n).map (getRow h)
+
+def i32 (v : Int) : Prop := -2147483648 ≤ v ∧ v < 2147483648
+
 end Header
 end Sgz
